@@ -235,6 +235,25 @@ func (sessScenario) Gen(r *Rng, tier string, opts map[string]string) interface{}
 	if !p.Faulty {
 		p.Cfg.Spurious = 0
 	}
+	if prop == "C11" && r.Chance(1, 5) {
+		// a deadline that expires at the very instant the awaited data arrives (both timers are due at the same
+		// virtual time), followed by reads with later deadlines: those must not inherit a stale expiry
+		d := r.Pick(15, 200, 1000)
+		n1, n2 := 1+r.Intn(300), 1+r.Intn(300)
+		var sp streamPlan
+		// the awaited data arrives at d, the reader's deadline is 1.5 d, and the reader's process is taken off the
+		// CPU from about d for 3 d: when the stall lands after the reader was woken, the deadline expires while the
+		// read is completing successfully
+		sp.C2S.W = []wOp{{K: "msg", Pieces: []piece{{K: "wb", N: n1}}}, {K: "sleep", N: d}, {K: "msg", Pieces: []piece{{K: "wb", N: n2}}}, {K: "sleep", N: 6 * d}, {K: "msg", Pieces: []piece{{K: "wb", N: 5}}}}
+		sp.C2S.R = []rOp{{K: "rb", N: n1}, {K: "deadline", N: d + d/2}, {K: "rb", N: n2}, {K: "release"}, {K: "deadline", N: 10 * d}, {K: "rb", N: 5}, {K: "release"}}
+		p.Streams = append(p.Streams, sp)
+		p.Chaos = []nbOp{{K: "sleep", N: d}, {K: "stall", N: 3 * d, Side: 1}}
+		p.Accept = r.Chance(1, 2)
+		p.Faulty = false
+		p.Cfg.Spurious = 0
+		p.Sim.PointMean = 0
+		return p
+	}
 	burst := prop == "C05" && r.Chance(1, 20)
 	if burst {
 		// thousands of queue elements produced while the consumer is off the CPU, drained in one go
@@ -645,6 +664,7 @@ type sessWorld struct {
 	crashAt       time.Duration
 	thr           []*thread
 	fdC, fdS      int
+	stallEnd      [2]time.Time // per side: end of the last injected process stall
 	acceptorG     *simrt.G
 	sockC         *ssys.Sock
 	tap           [2][]byte
@@ -1568,7 +1588,8 @@ func (w *sessWorld) readOp(ss *sessStream, dir int, op rOp) (stop bool) {
 					w.fail("C11.spurious_timeout", "stream %d dir %d: %s returned a timeout although no deadline was set", ss.idx, dir, op.K)
 				} else if time.Now().Before(d.rDeadline) {
 					w.fail("C11.early_timeout", "stream %d dir %d: %s timed out %v before its deadline", ss.idx, dir, op.K, time.Until(d.rDeadline))
-				} else if time.Since(d.rDeadline) > time.Second && d.rBlockedSince < now-time.Second {
+				} else if time.Since(d.rDeadline) > time.Second && d.rBlockedSince < now-time.Second && !w.stallEnd[rend].After(d.rDeadline) {
+					// (a reader whose process was off the CPU across the deadline legitimately returns late)
 					w.fail("C11.late_timeout", "stream %d dir %d: %s returned its timeout %v after the deadline", ss.idx, dir, op.K, time.Since(d.rDeadline))
 				}
 			}
@@ -1889,6 +1910,7 @@ func (w *sessWorld) neighbor(ops []nbOp) {
 				pr = w.ps
 			}
 			w.sim.Stall(pr, time.Duration(op.N)*time.Millisecond)
+			w.stallEnd[op.Side%2] = time.Now().Add(time.Duration(op.N) * time.Millisecond)
 			simrt.Count("fault.process_stall", 1)
 		}
 	}
